@@ -326,7 +326,7 @@ class YP(object):
         '''findall/3 returns values according to template into bag, that satisfy goal.'''
         # assumes goal is instantiated
         q = self.call(goal)
-        results = self.makelist([ get_value(template) for r in q ])
+        results = self.makelist([ copy_term(template, {}) for r in q ])
         for y in unify(bag, results):
             yield False
 
